@@ -135,18 +135,31 @@ PROPS = {
         only={'C09_registry': ['adapter.py:BaseAdapterRegistry.register', 'adapter.py:BaseAdapterRegistry.unregister', 'adapter.py:BaseAdapterRegistry.subscribe', 'adapter.py:BaseAdapterRegistry.unsubscribe', 'adapter.py:BaseAdapterRegistry._addValueToLeaf', 'adapter.py:BaseAdapterRegistry._removeValueFromLeaf', 'adapter.py:_convert_None_to_Interface',
                                'adapter.py:BaseAdapterRegistry._setBases', 'adapter.py:BaseAdapterRegistry.__init__',
                                'adapter.py:BaseAdapterRegistry._find_leaf', 'adapter.py:BaseAdapterRegistry.registered',
-                               'adapter.py:BaseAdapterRegistry.subscribed']},
+                               'adapter.py:BaseAdapterRegistry.subscribed', 'adapter.py:BaseAdapterRegistry._allKeys',
+                               'adapter.py:BaseAdapterRegistry._all_entries', 'adapter.py:BaseAdapterRegistry.allRegistrations',
+                               'adapter.py:BaseAdapterRegistry.allSubscriptions']},
         level_text="Verified from the real bodies for all registry contents: (re-)initialisation installs fresh empty containers and "
-                   "continues the generation counter (rebuild() runs it on a live registry); register rejects non-string names with ValueError before "
-                   "touching anything, treats None as unregister, and notifies (generation bump + cache invalidation) unless that very "
-                   "object is already registered under the key; unregister/unsubscribe either leave every existing container untouched "
-                   "or end by notifying; subscribe always notifies; _addValueToLeaf appends, _removeValueFromLeaf removes exactly the "
-                   "equal entries keeping order; None at registration means Interface. The functional effect on the nested mappings "
-                   "(which leaf changes, pruning of emptied containers, frame for sibling keys), the listings and rebuild() are "
-                   "checked bounded against a dictionary replay of random histories (<= 7 calls).",
-        level_note="the nested-dictionary frame conditions of the mutators are not discharged (DESIGN 9, first risk): bounded only; "
-                   "KeyError-freedom of the _provided bookkeeping is not claimed (may_raise).",
-        explanation='notification/no-op/argument-validation clauses of the mutators proved; functional update of the nested mappings bounded',
+                   "continues the generation counter (rebuild() runs it on a live registry); _find_leaf / registered / subscribed answer the entry at "
+                   "the end of the path of exactly that key (required specifications with None standing for Interface, then provided, then the name) "
+                   "or None; register rejects non-string names with ValueError before touching anything, treats None as unregister, leaves the value "
+                   "registered under exactly that key IN THE FINAL HEAP (four path lemmas proved by induction), is a no-op exactly when that very object "
+                   "is already there and notifies otherwise, lets existing dicts only gain edges to fresh empty dicts plus the leaf entry, lets the "
+                   "by-order list only grow by fresh empty mappings and bumps the reference count of provided by one; subscribe appends the subscriber to "
+                   "the tuple leaf of exactly that key with the same frame and always notifies; unregister removes the entry iff it is there and (no value "
+                   "given or that very object is registered), unsubscribe iff an equal subscriber is in the leaf (all equal ones go, order kept), and then, "
+                   "position by position along the path, only the leaf entry disappears and only mappings that are empty now are pruned, the by-order "
+                   "list only loses trailing empty mappings, the reference counts follow, everything else is untouched -- otherwise nothing at all changes; "
+                   "_allKeys / _all_entries / allRegistrations / allSubscriptions yield exactly the entries of the per-order trees (every key of every dict, "
+                   "in dict order, reshaped to (required, provided, name, value); every subscriber of every leaf in leaf order). That the effect on the "
+                   "dict OBJECTS is the effect on the VIEW of other keys needs the tree shape of the containers (no dict reachable by two paths): that "
+                   "step, the link between the enumeration and the path specification, and rebuild() are checked bounded against a dictionary replay of "
+                   "random histories (<= 7 calls).",
+        level_note="preconditions (representation invariant, established by the mutators, not itself proved inductive): per-order roots and path nodes are "
+                   "allocated dicts that are neither lookup caches nor the reference-count mapping, path nodes pairwise distinct, private containers are "
+                   "not stored as values, subscription leaves are tuples, the name is not a specification of the key; heap model: a never-allocated "
+                   "object has empty dict contents; KeyError-freedom of the _provided bookkeeping is not claimed (may_raise); the reference count clause "
+                   "follows the code (a replaced value bumps the count, DESIGN 10.3).",
+        explanation='mutators, queries and enumeration generators proved against a path specification of the nested mappings (heap-level frame); the view-level frame for other keys, the enumeration/path link and rebuild() bounded',
     ),
     'C05': dict(
         title='Lookup caches are transparent: answers never depend on earlier lookups',
